@@ -17,7 +17,14 @@ From Coq Require Import List Arith Bool.
 Import ListNotations.
 
 Definition rule := nat.
-Definition entry := (rule * nat)%type.
+(* one call of the listener by the VM: rule, position, and whether ABORTING the parse at this call
+   (listener returns true here and at every later call) makes vm.parse panic instead of return:
+   the VM answers an abort with a brand-new ParserState, and an enclosing rule whose body tolerates
+   the failure then indexes the empty token queue (pest/src/parser_state.rs, `new_state.queue[index]`). *)
+Definition entry := (rule * nat * bool)%type.
+Definition e_rule (e : entry) : rule := fst (fst e).
+Definition e_pos (e : entry) : nat := snd (fst e).
+Definition e_panic (e : entry) : bool := snd e.
 
 Inductive outcome := OEof | OErr (e : nat).
 Inductive event := EvBp (r : rule) (p : nat) | EvEof | EvErr (e : nat) | EvAbort.
@@ -43,7 +50,8 @@ Inductive ppc :=
 | PFinalSend (ev : event)                          (* t_final_send (fixed code only): flag was false, before the send *)
 | PStore                                           (* t_store: before is_done.store(true) *)
 | PExit                                            (* t_exit: closure about to return *)
-| PDone.                                           (* thread finished; join returns *)
+| PDone                                            (* thread finished; join returns Ok *)
+| PDead.                                           (* thread unwound by a panic inside vm.parse; join returns Err *)
 
 (* controller: control points; d = "the channel was empty when run() was called" *)
 Inductive cpc :=
@@ -68,7 +76,8 @@ Inductive act :=
 | AAbort.                        (* listener saw is_done and aborted the parse *)
 
 (* what the controller observes (compared with the real code by the harness) *)
-Inductive obs := ORecv (ev : event) | ODisc | ONoRx | OContOk | OContEof | OContNoRun.
+Inductive obs := ORecv (ev : event) | ODisc | ONoRx | OContOk | OContEof | OContNoRun
+                 | ORunPanic.   (* run() returned Err(PreviousRunPanic): the new session was NOT started *)
 
 Record config := { fixed : bool; spur : bool; cap : nat }.
 
@@ -138,17 +147,18 @@ Definition send (cf : config) (s : state) (ev : event) : option state :=
 (* ---- the parsing thread: handle()'s closure and the listener, one control point per step ---- *)
 Definition step_p (cf : config) (s : state) : option state :=
   match p_pc s with
-  | PNone | PDone => None
+  | PNone | PDone | PDead => None
   | PStart es o => Some (set_p s (next_pc es o))
   | PLoad [] _ => None                                            (* not a control point (next_pc never yields it) *)
   | PLoad (e :: es) o =>
-      if is_done s then Some (add_log (set_p s (PFinal EvAbort)) AAbort)   (* return true: the VM fails every further rule *)
+      if is_done s then                                            (* return true: the VM fails every further rule *)
+        Some (add_log (set_p s (if e_panic e then PDead else PFinal EvAbort)) AAbort)
       else Some (set_p s (PLock e es o))
   | PLock e es o =>
-      let b := mem (fst e) (bps s) in
+      let b := mem (e_rule e) (bps s) in
       Some (add_log (set_p s (if b then PSend e es o else next_pc es o)) (ALook e b))
   | PSend e es o =>
-      match send cf s (EvBp (fst e) (snd e)) with
+      match send cf s (EvBp (e_rule e) (e_pos e)) with
       | Some s' => Some (set_p s' (PPark es o))
       | None => None
       end
@@ -196,14 +206,19 @@ Definition step_c (cf : config) (s : state) : option state :=
           match p_pc s, chan s with
           | PNone, _ => Some (add_out (pop_cmd s cs) ONoRx)               (* no run yet: there is no receiver *)
           | _, ev :: ch => Some (add_log (add_out (set_chan (pop_cmd s cs) ch) (ORecv ev)) (ARecv ev))
-          | PDone, [] => Some (add_out (pop_cmd s cs) ODisc)              (* both senders dropped *)
+          | PDone, [] | PDead, [] => Some (add_out (pop_cmd s cs) ODisc)  (* both senders dropped *)
           | _, [] => None                                                 (* recv blocks *)
           end
       end
   | RLoad d es o => Some (set_c s (if is_done s then RJoin d es o else RStore d es o))
   | RStore d es o => Some (set_done (set_c s (RUnpark d es o)) true)
   | RUnpark d es o => Some (add_log (set_token (set_c s (RJoin d es o)) true) AKick)
-  | RJoin d es o => match p_pc s with PDone => Some (set_c s (RReset es o)) | _ => None end
+  | RJoin d es o =>
+      match p_pc s with
+      | PDone => Some (set_c s (RReset es o))
+      | PDead => Some (add_out (set_c s CIdle) ORunPanic)       (* `?` on the join error: early return, handle stays None *)
+      | _ => None
+      end
   | RReset es o => Some (set_done (set_c s (RSpawn es o)) false)
   | RSpawn es o => Some (spawn s es o)
   | KLoad =>
